@@ -120,10 +120,10 @@ Hypothesis `okAddr`: none of the recorded finding classes lies on the way to the
 decidable, local to the parents on the way): no other key of a mapping on the way is written the same
 (**K1**, `1` next to `'1'`); keys and anchor names on the way are expressible in the notation (**K2**:
 not empty, no `*`, not starting with `&`, …) and hold no two adjacent backslashes (**K6**, found by this
-proof: `ensure_escaped` takes the pair for an escaped backslash); a merge reference has a non-empty source
-(**K5**) and its name is carried by nothing else in the mapping; an anchored sequence element is the only
+proof: `ensure_escaped` takes the pair for an escaped backslash); a merge reference's name is carried by nothing else in the mapping
+(its source may be empty since fix 87356f5, formerly **K5**); an anchored sequence element is the only
 one of its sequence with that anchor (an aliased repeat in the same sequence is one Python object at two
-addresses — `[&a]` then denotes both).  Witnesses of K1 / K2 / K5 / K6 below.
+addresses — `[&a]` then denotes both).  Witnesses of K1 / K2 / K6 below.
 
 Proof: `hits_walk` (mutual induction over the six search functions: the text is `pathText` of a walk to
 the address), `escapePathSection_eq` (the twelve `ensure_escaped` passes and the leading-slash rule are
@@ -246,14 +246,15 @@ example : search ⟨{}, fun _ => true⟩ starDoc = [⟨"a*".toList, [.key (.str 
     okAddr (liveIn starDoc) starDoc [.key (.str "a*".toList)] = false ∧
     reresolves ⟨{}, fun _ => true⟩ starDoc ⟨"a*".toList, [.key (.str "a*".toList)]⟩ = false := by decide +kernel
 
-/-- **K5** (`z: &z {}`, `m: {<<: *z}`): the empty merge source is falsy, `m[&z]` finds nothing -/
+/-- formerly **K5** (`z: &z {}`, `m: {<<: *z}`): before fix 87356f5 the empty merge source was falsy and
+`m[&z]` found nothing; now the hypothesis holds and the printed path comes back as its address -/
 def emptySrcDoc : SNode :=
   .map none [(⟨none, .str "z".toList⟩, .map (some "z".toList) [] [] []),
              (⟨none, .str "m".toList⟩, .map none [] [] ["z".toList])] [] []
 example : search (valCtx false) emptySrcDoc =
       [⟨"z".toList, [.key (.str "z".toList)]⟩, ⟨"m.[&z]".toList, [.key (.str "m".toList), .mref 0]⟩] ∧
-    okAddr (liveIn emptySrcDoc) emptySrcDoc [.key (.str "m".toList), .mref 0] = false ∧
-    reresolves (valCtx false) emptySrcDoc ⟨"m.[&z]".toList, [.key (.str "m".toList), .mref 0]⟩ = false := by
+    okAddr (liveIn emptySrcDoc) emptySrcDoc [.key (.str "m".toList), .mref 0] = true ∧
+    reresolves (valCtx false) emptySrcDoc ⟨"m.[&z]".toList, [.key (.str "m".toList), .mref 0]⟩ = true := by
   decide +kernel
 
 /-- **K6** (found by the proof of `escapePathSection_eq`): a key with two adjacent backslashes.
